@@ -148,6 +148,15 @@ def rule_if_flattening(repo: Repo) -> List[Ob]:
                         ok = True
                     elif saves(v.right.id) and not saves(v.left.id):
                         ok = False
+            # all_assigns += rename_assigns  (the accumulated spelling of all_assigns = all_assigns + rename_assigns)
+            for v, site in zip(defs.defs.get(inner.id, []), defs.def_sites.get(inner.id, [])):
+                if isinstance(site, ast.AugAssign) and isinstance(site.op, ast.Add) and isinstance(v, ast.Name):
+                    own = any(isinstance(x, ast.expr) and "deterministic" in src(x) for x, s_ in zip(defs.defs.get(inner.id, []), defs.def_sites.get(inner.id, [])) if s_ is not site)
+                    appended = any(isinstance(x, ast.expr) and "deterministic" in src(x) for x in defs.defs.get(v.id, []))
+                    if appended and not own:
+                        ok = False
+                    elif own and not appended and ok is None:
+                        ok = True
     _emit(obs, "M-if-flatten", key + "::old-copies-first", IFT, m.node.lineno, m.qualname, ok,
           "the assignments that save old values precede all branch assignments" if ok else
           ("the `_old = x` assignments are placed AFTER the flattened branch assignments" if ok is False else "order of saving assignments not recognised"))
@@ -815,8 +824,10 @@ def rule_transform_terms(repo: Repo) -> List[Ob]:
             for v, site in zip(defs.defs[nm], defs.def_sites.get(nm, [])):
                 if not isinstance(v, ast.expr) or isinstance(site, ast.AugAssign):
                     continue
-                uses = any(isinstance(x, ast.Call) and call_name(x) == meth for x in ast.walk(v))
+                from ..shape import inline_locals
                 key = f"{FA}::{qn}::{nm}::{src(v)[:30]}"
+                v = inline_locals(v, defs, keep=set(idn) | set(tv) | {"t"})       # h = dist.get_moment(a); term = I ** a * h
+                uses = any(isinstance(x, ast.Call) and call_name(x) == meth for x in ast.walk(v))
                 if uses:
                     # derivative order and evaluation point
                     if any(isinstance(x, ast.Call) and call_name(x) == "diff" for x in ast.walk(v)):
@@ -826,7 +837,22 @@ def rule_transform_terms(repo: Repo) -> List[Ob]:
                                       f"{meth} is differentiated `Id`-power times" if ok else f"`{src(d)[:60]}`: the derivative order is not the identity power"))
                     else:
                         tests = controlling_tests(c, node_for(c, site))
-                        ok = any(any(isinstance(y, ast.Name) and y.id in idn for y in ast.walk(t.ast)) and isinstance(t.ast, ast.Compare) and src(t.ast.comparators[0]) == "0" and reach is True for t, reach in tests)
+                        def id_is_zero(t, reach) -> bool:
+                            """the test outcome `reach` says that the identity power is 0:  p == 0 / 0 == p (true), p != 0 (false), not p (true), p (false)"""
+                            a = t
+                            while isinstance(a, ast.UnaryOp) and isinstance(a.op, ast.Not):
+                                a, reach = a.operand, (not reach if isinstance(reach, bool) else reach)
+                            if isinstance(a, ast.Name):
+                                return a.id in idn and reach is False
+                            if isinstance(a, ast.Compare) and len(a.ops) == 1 and isinstance(a.ops[0], (ast.Eq, ast.NotEq)):
+                                l, r_ = a.left, a.comparators[0]
+                                if isinstance(l, ast.Constant):
+                                    l, r_ = r_, l
+                                if isinstance(l, ast.Name) and l.id in idn and isinstance(r_, ast.Constant) and r_.value == 0:
+                                    return reach is isinstance(a.ops[0], ast.Eq)
+                            return False
+                        from ..shape import conjuncts as _conj
+                        ok = any(id_is_zero(a_, tr_) for t, reach in tests if isinstance(t.ast, ast.expr) and isinstance(reach, bool) for a_, tr_ in _conj(t.ast, reach))
                         obs.append(Ob("M-transform-term", key, FA, v.lineno, qn, ok,
                                       f"the plain {meth} value is used only when the identity power is 0" if ok else f"`{src(v)[:50]}` (no derivative) is not restricted to identity power 0"))
                     continue
